@@ -219,5 +219,7 @@ def run(ctx):
     finally:
         ctx.goenv = goenv
     for op, r in zip(big, rbig):
-        ctx.records.append((' '.join(op.split(' ')[:3]) + ' ... ' + op.split(' ')[8], r or 'crash', 'same'))
+        label = ' '.join(op.split(' ')[:3]) + ' ... ' + op.split(' ')[8]
+        ctx.full_op[label] = op; ctx.confirm_ms[label] = 600000
+        ctx.records.append((label, r or 'crash', 'same'))
 
